@@ -151,10 +151,11 @@ where
         if let Some(shard) = self.shard.take() {
             let mut shard = shard.write();
             match shard.entry(self.hash(), |p| self.key() == p.key(), |p| p.hash()) {
-                HashTableEntry::Occupied(o) => {
+                // A newer piece of the same key may have taken the slot: only release our own piece.
+                HashTableEntry::Occupied(o) if std::ptr::eq(o.get().key(), self.key()) => {
                     o.remove();
                 }
-                HashTableEntry::Vacant(_) => {}
+                _ => {}
             }
         }
     }
